@@ -2,17 +2,17 @@ SPECIFICATION LSpec
 CONSTANTS
  Mode = "sage"
  D = 2
- NInner = 1
- Kind = "welford"
+ NInner = 2
+ Kind = "es"
  Alpha <- A_1_2
- StoreKind = "geometric"
+ StoreKind = "interval"
  Cap = 2
- Strategy = "product"
+ Strategy = "default"
  NOver = 0
- ModelKind = "multi"
+ ModelKind = "scalar"
  CommitEarly = FALSE
  MaxCalls = 3
- MaxFaults = 1
+ MaxFaults = 0
  AllowNoUpd = FALSE
 INVARIANT Emit
 CHECK_DEADLOCK FALSE
